@@ -49,6 +49,7 @@ fn to_replay(case: &Case, recs: &[RunRecord]) -> Case {
     for (inv, rec) in c.invs.iter_mut().zip(recs.iter()) {
         inv.sched = Sched {
             strategy: "replay".into(),
+            target: String::new(),
             seed: 0,
             p: 0,
             d: 0,
